@@ -213,6 +213,9 @@ pub fn gen_case(prop: &str, seed: u64, idx: u64) -> Case {
         }
         "C14" => {
             case.sim = SimProfile::default();
+            // buffers large enough that a PINGREQ is never split across service calls: the ping
+            // deadline is then measured from one well-defined instant
+            case.buf_capacity = *r.pick(&[64usize, 512, 4096, 8192]);
             case.sim.prompt = true;
             case.sim.discipline = Discipline::Contract;
             case.sim.n_ops = r.range(0, 6) as usize;
